@@ -195,6 +195,11 @@ void Search::go()
     }
     iter_search();
 
+    // no iteration completed (stop or limit hit at once): still answer with
+    // a move of the root list
+    if (_best_move == NO_MOVE && !_root_moves.empty())
+        _best_move = _root_moves.front();
+
     ASSERT(_best_move != NO_MOVE);
     VERIF_POINT(BEFORE_BESTMOVE, this, &stop_search, &_position, _best_move, 0);
     sync_cout << "bestmove " << _position.uci(_best_move) << sync_endl;
